@@ -398,7 +398,7 @@ def c15(prop, tier, t0):
 @check("C19")
 def c19(prop, tier, t0):
     bound = 2 if tier == "quick" else 3
-    m, cov = engb_run(prop, tier, "c19", bound, budget="45s" if tier == "quick" else "900s", shards=vlib.NCPU)
+    m, cov = engb_run(prop, tier, "c19", bound, budget="45s" if tier == "quick" else "2400s", shards=vlib.NCPU)
     # conformance of the fake's event alphabet with the real fsnotify library + inotify, and an end-to-end run of the
     # real (uninstrumented) DetectDeviceConfigChanges
     conf, _ = vlib.build("c19conf")
